@@ -290,6 +290,9 @@ func init() {
 		time.Sleep(1200 * time.Millisecond)
 		idle := s.waitIdle(1800*time.Millisecond, 45*time.Second)
 		got := s.snapshot()
+		orphanMods, orphanAggs := s.ls.VerifCacheOrphans()
+		sort.Strings(orphanMods)
+		sort.Strings(orphanAggs)
 		// fresh server on the same final contents
 		root2 := filepath.Join(base, "fresh", "w")
 		cfg, _ := os.ReadFile(filepath.Join(root, ".regal", "config.yaml"))
@@ -322,7 +325,8 @@ func init() {
 			names = append(names, "/"+k)
 		}
 		sort.Strings(names)
-		return map[string]any{"idle": idle, "freshIdle": idle2, "published": got, "fresh": want, "files": names, "results": results}, nil
+		return map[string]any{"idle": idle, "freshIdle": idle2, "published": got, "fresh": want, "files": names, "results": results,
+			"orphanModules": orphanMods, "orphanAggregates": orphanAggs}, nil
 	})
 }
 
